@@ -420,5 +420,26 @@ func c14CLI(c *fw.Ctx, cs c14Case, text string, recs []sm.Record, want []tagTota
 			}
 		}
 	}
+	// matching through the real command line (flag decoding included): names case-insensitively, values case-sensitively,
+	// quoted = unquoted, a tag asked for twice (in two spellings) is the same query
+	for _, q := range [][]string{{"a"}, {"A"}, {"a", "#A"}, {"a=1"}, {"a=1", "a=\"1\"", "A='1'"}, {"b=x"}, {"b=X"}, {"B=x"}, {"a", "b"}, {"a=2", "a"}} {
+		var tags []sm.Tag
+		args := []string{"total", "--decimal", "--no-style", "--no-warn"}
+		for _, t := range q {
+			rt, ok := refQuery(t)
+			if !ok {
+				harnessFatal("C14: bad query %q", t)
+			}
+			tags = append(tags, rt)
+			args = append(args, "--tag="+t)
+		}
+		sel := c13Apply(recs, []c13Clause{{kind: "tag", recTags: tags}})
+		r := clidrv.Run(home, clidrv.Opts{Now: fixedNow}, append(args, path)...)
+		wantOut := fmt.Sprintf("Total: %d\n(In %d record%s)\n", sm.Total(sel), len(sel), map[bool]string{true: "", false: "s"}[len(sel) == 1])
+		if r.Panicked || r.Code != 0 || r.Stdout != wantOut {
+			c.Violation("cli-tag-filter", cs, fmt.Sprintf("`klog %s` (exit %d, panic %v) printed %q, the matching entries give %q", strings.Join(args, " "), r.Code, r.PanicVal, r.Stdout, wantOut))
+			return
+		}
+	}
 	c.Outcome("via-cli")
 }
